@@ -215,6 +215,12 @@ class VariedLayout(mr.Layout):
     def message(self, deck):
         if self.spec.get('message'):
             self.applied.add('message-block')
+            if self.spec.get('case'):
+                # the keyword of the message block in any letter case
+                self.message_kw = ['message:', 'MESSAGE:', 'Message:',
+                                   'mEsSaGe:'][self._next() % 4]
+                if self.message_kw != 'message:':
+                    self.applied.add('message-keyword-case')
             return 'outp=job.o runtpe=job.r'
         return deck.get('message')
 
